@@ -224,7 +224,8 @@ def pairs_for_doc(ci, di, acc):
 
 
 # ---- reset_rules ------------------------------------------------------------------------------------------------
-ACTIONS = ["en:table", "dis:emphasis", "eo:inline:text,link", "dis:nope!"]
+ACTIONS = ["en:table", "dis:emphasis", "eo:inline:text,link", "dis:nope!", "en:balance_pairs,emphasis,fragments_join", "render"]
+ENTRIES = ["", "ruler2-off", "inline-text-only"]
 EXITS = ["normal", "raise", "return", "genclose"]
 
 
@@ -250,8 +251,11 @@ def programs(max_steps, depth, inner_steps):
 
 def do_action(md, a):
     kind, *rest = a.split(":")
+    if kind == "render":
+        md.render("*a* ~~b~~ [c](d)\n\n|e|\n|-|\n")
+        return
     if kind == "en":
-        md.enable(rest[0])
+        md.enable(rest[0].split(",") if "," in rest[0] else rest[0])
     elif kind == "dis":
         if rest[0].endswith("!"):
             md.disable(rest[0][:-1], True)
@@ -320,10 +324,14 @@ def run_block(md, body, exit_kind, errors, path):
         raise raised
 
 
-def reset_case(body, exit_kind, preset, acc):
+def reset_case(body, exit_kind, preset, acc, entry=""):
     from markdown_it import MarkdownIt
 
     md = MarkdownIt(preset)
+    if entry == "ruler2-off":
+        md.inline.ruler2.disable(md.inline.ruler2.get_active_rules())
+    elif entry == "inline-text-only":
+        md.inline.ruler.enableOnly(["text"])
     md.render("*a*")
     entry = md.get_active_rules()
     ref = md.render("*a* ~~b~~ [c](d)\n\n|e|\n|-|\n")
@@ -354,7 +362,7 @@ def bounds(tier):
     th = tier == "thorough"
     return {"documents": len(DOCS) if th else 3, "configs": CFGS, "exception_classes": [e.__name__ for e in EXC],
             "when": ["before", "after"], "fault_pairs": "all ordered pairs on 2 documents (js-default)" if th else "none (sequences by instance reuse)",
-            "reset_rules": {"actions": ACTIONS, "exits": EXITS, "max_steps": 3 if th else 2, "nesting": 3 if th else 2, "inner_steps": 1, "presets": ["commonmark", "js-default"]}}
+            "reset_rules": {"entry_states": ENTRIES, "actions": ACTIONS, "exits": EXITS, "max_steps": 3 if th else 2, "nesting": 3 if th else 2, "inner_steps": 1, "presets": ["commonmark", "js-default"]}}
 
 
 def shards(tier):
@@ -372,7 +380,9 @@ def shards(tier):
     for preset in ("commonmark", "js-default"):
         for ex in EXITS:
             for part in range(4):
-                sh.append(("reset", preset, ex, 3 if th else 2, 3 if th else 2, 1, part, 4))
+                sh.append(("reset", preset, ex, 3 if th else 2, 3 if th else 2, 1, part, 4, ""))
+            for entry in ENTRIES[1:]:
+                sh.append(("reset", preset, ex, 2, 2, 1, 0, 1, entry))
     return sh
 
 
@@ -392,15 +402,16 @@ def run_shard(sh, acc):
     elif kind == "pairs":
         pairs_for_doc(sh[1], sh[2], acc)
     elif kind == "reset":
-        _, preset, ex, ms, depth, inner, part, nparts = sh
+        _, preset, ex, ms, depth, inner, part, nparts, entry = sh
         for n, body in enumerate(programs(ms, depth - 1, inner)):
             if n % nparts != part:
                 continue
             acc.case()
-            errs = reset_case(body, ex, preset, acc)
-            acc.sig(("reset", preset, ex, json.dumps(_jsonable(body))))
+            errs = reset_case(body, ex, preset, acc, entry)
+            acc.sig(("reset", preset, ex, entry, json.dumps(_jsonable(body))))
             for path, ek, msg in errs[:1]:
-                acc.violation("reset_rules", f"{msg} (exit={ek})", {"preset": preset, "body": _jsonable(body), "exit": ex}, msg + f" at nested path {path}, exit {ek}")
+                acc.violation("reset_rules", f"{msg} (exit={ek})", {"preset": preset, "body": _jsonable(body), "exit": ex, "entry": entry},
+                              msg + f" at nested path {path}, exit {ek}")
         acc.sample("reset_rules", {"preset": preset, "body": ["dis:emphasis", ["with", ["en:table"], "raise"]], "exit": ex}, 1)
 
 
@@ -441,8 +452,8 @@ def check_case(case, acc):
         if bad:
             acc.violation(sub, bad[0], {k: case[k] for k in ("cfg", "doc", "site", "index", "when", "exc")}, bad[1])
     elif sub == "reset_rules":
-        errs = reset_case(_unjson(case["body"]), case["exit"], case["preset"], acc)
+        errs = reset_case(_unjson(case["body"]), case["exit"], case["preset"], acc, case.get("entry", ""))
         for path, ek, msg in errs[:1]:
-            acc.violation(sub, f"{msg} (exit={ek})", {k: case[k] for k in ("preset", "body", "exit")}, msg)
+            acc.violation(sub, f"{msg} (exit={ek})", {k: case.get(k, "") for k in ("preset", "body", "exit", "entry")}, msg)
     elif sub == "faultpair":
         pairs_for_doc(case["cfg"], case["doc"], acc)
